@@ -204,6 +204,7 @@ func c13(c *Ctx) {
 	c13Unmarshal(c)
 	c13Info(c)
 	c13ParsedHelloImmutable(c)
+	c13ListsFromWire(c)
 	c13HTTPS(c)
 }
 
